@@ -358,6 +358,59 @@ def interrupt_family(rng):
     return {"family": "interrupt", "spec": spec, "inputs": inputs, "kw": {}}
 
 
+def map_on_missing(ctx):
+    """runner.map with a selection that includes a branch-specific output, over items that take different branches:
+    on_missing is decided PER ITEM - 'warn' warns once for every item that does not produce a selected name, 'error'
+    fails exactly those items (continue mode), 'ignore' is silent; the produced names are returned for every item."""
+    import asyncio
+    import warnings
+
+    from hypergraph import AsyncRunner, FunctionNode, Graph, IfElseNode, SyncRunner
+
+    def pos(x):
+        return x > 0
+
+    def big(x):
+        return ("big", x)
+
+    def small(x):
+        return ("small", x)
+
+    def tail(x):
+        return ("tail", x)
+
+    g = Graph([IfElseNode(pos, when_true="big", when_false="small", name="pos", default_open=False), FunctionNode(big, name="big", output_name="b"), FunctionNode(small, name="small", output_name="s"), FunctionNode(tail, name="tail", output_name="t")], name="mom")
+    for xs in ([1, -1], [-1, 1, -2], [1, 2, 3], [-1, -2]):
+        missing_b = sum(1 for x in xs if x <= 0)
+        for runner_kind, k in (("sync", None), ("async", None), ("async", 1), ("async", 2)):
+            for pol in ("ignore", "warn", "error"):
+                with warnings.catch_warnings(record=True) as wl:
+                    warnings.simplefilter("always")
+                    kw = {"map_over": "x", "select": ["b", "t"], "on_missing": pol, "error_handling": "continue"}
+                    try:
+                        res = SyncRunner().map(g, {"x": list(xs)}, **kw) if runner_kind == "sync" else asyncio.run(AsyncRunner().map(g, {"x": list(xs)}, max_concurrency=k, **kw))
+                    except Exception as e:  # noqa: BLE001
+                        ctx.violation("C16:on_missing-map", f"{runner_kind}/k={k} map(on_missing={pol!r}, continue) over {xs} raised {e!r}", {"program": "map on_missing", "xs": xs, "policy": pol})
+                        continue
+                nw = sum(1 for w in wl if issubclass(w.category, UserWarning) and "not found" in str(w.message))
+                ctx.obs["on_missing_checked"] += 1
+                ctx.obs["map_on_missing_calls"] += 1
+                failed = sum(1 for r in res if r.status.value == "failed")
+                case = {"program": "map on_missing", "xs": xs, "policy": pol, "runner": runner_kind, "max_concurrency": k}
+                want_w = missing_b if pol == "warn" else 0
+                want_f = missing_b if pol == "error" else 0
+                if nw != want_w or failed != want_f or len(res) != len(xs):
+                    ctx.violation("C16:on_missing-" + pol, f"{runner_kind}/k={k}: map over {xs} selecting ['b', 't'] with on_missing={pol!r}: {nw} warnings, {failed} failed items; {missing_b} item(s) do not produce 'b', so {want_w} warnings and {want_f} failed items are owed", case)
+                    continue
+                for x, r in zip(xs, res):
+                    if r.status.value == "completed":
+                        exp = {"t": ("tail", x), **({"b": ("big", x)} if x > 0 else {})}
+                        if r.values != exp:
+                            ctx.violation("C16:unselected-key", f"{runner_kind}/k={k}: item x={x} returned {r.values}, the selection gives {exp}", case)
+                            break
+    ctx.case({"directed": "map-on-missing"}, True)
+
+
 def run(ctx):
     n = 400 if ctx.tier == "quick" else 12000
     core.WARM_P = 0.0
@@ -366,6 +419,8 @@ def run(ctx):
         one(ctx, {"family": c["family"], "spec": c["spec"], "inputs": c["inputs"]}, 99)
         ctx.case("r2")
         return
+    if ctx.shard[0] == 0:
+        map_on_missing(ctx)
     for i in range(n):
         fam = cached_gate_emit(ctx.rng) if i % 5 == 4 else interrupt_family(ctx.rng) if i % 7 == 3 else emit_entry_family(ctx.rng) if i % 11 == 6 else emit_data_alias_family(ctx.rng) if i % 13 == 8 else families.rich(ctx.rng)
         one(ctx, fam, i)
